@@ -54,7 +54,7 @@ STRENGTHENED = [
 OUT = "/verif/seeded"
 
 # round 3 (E/F): the first trial of every change was blind (its description had not been read)
-BLIND = lambda sid: sid[-1] in "EF"
+BLIND = lambda sid: sid[-1] in "EFGH"
 # first trial reported for the wrong reason (an unsound check that was corrected afterwards)
 FIRST_REPORT_UNSOUND = {"C16-F"}
 STRENGTHENED += [
@@ -78,6 +78,26 @@ STRENGTHENED += [
     ("C16-F", "counted as missed blind: its first trial did exit 1, but only through `start-after-sigint`, a bound that was unsound when no command was executing at the signal (found and corrected in this round, see DESIGN B5); with the bound corrected the change went unreported until C16 got a terminal stage: commands' output and failure headers as finally visible on an emulated screen (real_gated.rs c16_pty_case, screen_rows)"),
     ("C19-F", "missed blind: the running count shown on a terminal was never compared with the commands executing; gated pty sessions compare the displayed D/T done, R running with the truth at quiescent points (real_gated.rs c19_pty_case)"),
     ("C20-E / C20-F", "missed blind: failing pty commands always printed something and narrow terminals were 1 case in 72; silent failures (exit 3, test -e) and widths 1-9 are now frequent, and a width below 10 must not be rendered for (real_misc.rs c20_pty_case)"),
+]
+
+STRENGTHENED += [
+    ("round 4 (G, H)", "40 more, again blind, written to avoid the six earlier changes per property (so more exotic): 15 were reported at once, 24 after the extensions below; C03-G is reported by C02's check and is not a violation of C03 as stated (it makes n2 skip a step; C03 only forbids running one)"),
+    ("C01-G / C01-H", "missed blind: loader slips (a leading ./ kept, file scope consulted before the block's bindings) disconnect producer and consumer; every E1/E2 project is now also run under noisy spellings and with paths written through block variables that shadow file-level ones (ap.rs shadow_seed, sched.rs, hist.rs, realp.rs)"),
+    ("C02-H", "missed blind: no build line listed the same input twice; added (hist.rs)"),
+    ("C03-H / C16-H", "missed blind: include notes always had one space and output never had CR LF; nested notes (agent.rs), CR LF and bare CR in the streams and deps=msvc on some C16 tasks (agent_stream.rs, real_c16.rs)"),
+    ("C04-G", "missed blind: pools were shallow and -j small; deep-pool cases (depth 8-33, -j above it) added (sched.rs)"),
+    ("C04-H / C05-G", "missed blind: no command printed tens of megabytes and kept running, none failed to spawn; gated E2 cases added (real_gated.rs c04_bigout_case, c05_spawn_failure_case)"),
+    ("C06-G / C06-H", "missed blind: C06 had no commands leaving later outputs unwritten and no process-level depfiles; added (sched.rs SomeOutputs, real_misc.rs depfile kind incl. a trailing backslash)"),
+    ("C07-G", "missed blind: logs were smaller than the reader's 8 KiB window; logs whose records end exactly on multiples of 8192 bytes added (hist.rs aligned_case)"),
+    ("C08-G", "missed blind (third independent occurrence of the builddir-in-subninja change): a subninja file with a private builddir is now one of C08's manifest rewrites (ap.rs sub_builddir)"),
+    ("C10-H / C14-G / C14-H", "missed blind: every file was named by one statement; the template idiom (a bindings file included from several places, diamonds), a subninja file loaded twice, and a duplicate spelled through a variable re-bound by an included file added (pure/manifest.rs, manifest_dups.rs)"),
+    ("C12-H", "missed blind: the process stage fed bytes once; raw-name trees built twice added under C12 (realp.rs dispatch)"),
+    ("C13-H", "missed blind: C13's function-level stage never went through the loader; a probe that writes two spellings into one manifest (output, input, default) and compares the nodes added (pure/canon.rs)"),
+    ("C15-G / C15-H", "missed blind: depfiles were regular files at lexically plain paths; symbolic-link depfiles (agent.rs) and a depfile path with .. behind a symlinked directory added (realp.rs)"),
+    ("C16-G", "missed blind: SIGINT always went to the whole group; a gated case in which one command signals itself added (real_gated.rs c16_interrupt_case)"),
+    ("C17-H", "missed blind: the generator never rewrote a file it reports; gencache.h added (hist.rs, model.rs)"),
+    ("C19-G / C19-H", "missed blind: the pty stage compared done/total/running only, with at most 7 commands; the in-flight count, phony aliases and up to 14 commands at -j 16 added (real_gated.rs)"),
+    ("C20-H", "missed blind: last-output-line rows were not measured; now measured on the bytes sent to the terminal (real_misc.rs)"),
 ]
 
 
@@ -157,6 +177,8 @@ for f in sorted(glob.glob(os.path.join(TRIALS, "*.confirm.json"))):
     note = ""
     if any(v.get("missed_before_strengthening") for v in det.values()):
         note = " — missed on the first%s trial; reported after the workload was extended (see below)" % (" (blind)" if BLIND(sid) else "")
+    elif sid == "C03-G":
+        note = " — blind; not reported by C03's check and not a violation of C03 as stated (a skipped step): reported by C02's check, run afterwards"
     elif BLIND(sid):
         note = " — blind first trial"
     elif sid in ANTICIPATED:
